@@ -8,7 +8,6 @@
 package e4
 
 import (
-	"time"
 	"bytes"
 	"encoding/json"
 	"fmt"
@@ -21,6 +20,8 @@ import (
 	"sort"
 	"strconv"
 	"strings"
+	"time"
+	"verifharness/ports"
 
 	"github.com/rs/zerolog"
 
@@ -51,17 +52,11 @@ type Engine struct {
 	lastPop    string
 	CurFile    string
 	EnvOK      bool // the measured Differs relation satisfies the hypothesis of C17_spelling
+	PortsOK    bool // the measured address table satisfies the hypothesis of C05_reachable_ports
 	seen       run.Seen
 }
 
-func freePort() int {
-	l, err := net.Listen("tcp", "127.0.0.1:0")
-	if err != nil {
-		panic(err)
-	}
-	defer l.Close()
-	return l.Addr().(*net.TCPAddr).Port
-}
+func freePort() int { return ports.Free() }
 
 // New measures the address table: what ResolveTCPAddr and Listen answer for every spelling.
 func New(d *drv.Driver) *Engine {
@@ -151,6 +146,7 @@ func (e *Engine) SendEnv() {
 	e.D.Ask(fmt.Sprintf("busy %d", e.BusyPort))
 	e.D.Ask("variant " + e.Variant)
 	e.EnvOK = e.D.Ask("envok") == "1"
+	e.PortsOK = e.D.Ask("portsok") == "1"
 }
 
 // parse the first JSON value of text into a JV (key order and duplicates preserved).
